@@ -13,7 +13,7 @@ def generate(tier, rng):
     w = dg.get_world(tier, rng)
     rng.getrandbits(32)                  # a different value stream than C08
     big = [sc for sc in w.base if any(len(dg.all_fields(d)) >= 10 for d in sc.defs)]
-    return dg.denc_cases(w, rng, tier, op="DLEN") + dg.denc_cases(w, rng, tier, schemas=big + [w.fixed["f6"], w.fixed["f7"]], per=2, op="DLEN")
+    return dg.denc_cases(w, rng, tier, op="DLEN") + dg.denc_cases(w, rng, tier, schemas=big + [w.fixed["f6"], w.fixed["f7"], w.fixed["trc"]], per=2, op="DLEN")
 
 def nontrivial(line, impl): return len(impl.split(";")[0]) > 4
 def classify(line, impl):
